@@ -899,6 +899,9 @@ class Json(String):
         self.setValue(json.loads(v))
     def setValue(self, v):
         super(Json, self).setValue(json.dumps(v))
+    def __str__(self):
+        # set() reads JSON text, not a Python string literal: never quote it.
+        return self.value
     def __call__(self):
         return json.loads(super(Json, self).__call__())
 
